@@ -6,20 +6,24 @@ VERIF = os.path.dirname(os.path.dirname(os.path.abspath(__file__)))
 subprocess.run(["/venv/bin/python", os.path.join(VERIF, "tools", "gen_tables.py")], check=True, stdout=subprocess.DEVNULL)
 fp = json.load(open(os.path.join(VERIF, "lean", "QR", "Gen", "fingerprints.json")))
 mf = json.load(open(os.path.join(VERIF, "tools", "modelled_functions.json")))
-keys = sorted({k for g in mf["groups"].values() for k in g})
+keys = sorted({k for g in mf["groups"].values() for k in g} | {k for v in mf.get("roots", {}).values() for k in v}
+              | {k for v in mf.get("cuts", {}).values() for k in v if not k.endswith("*")})
 missing = [k for k in keys if k not in fp]
 assert not missing, missing
 import re
 gen = open(os.path.join(VERIF, "lean", "QR", "Gen", "Fingerprints.lean")).read()
 L = ["import QR.Gen.Fingerprints", "/-",
-     "Pinned fingerprints (tools/pin_fingerprints.py; committed): per property, the hash over the normalised ASTs of the Python",
-     "functions its hand-written model mirrors (list: tools/modelled_functions.json), as they were when the model was written and",
-     "validated.  `Cxx_source_fingerprints` states that /repo's working tree still has exactly these: the theorems are about a",
-     "model of THIS source.  Which function changed is reported by ./check from corpus/fingerprints_baseline.json.", "-/", "namespace QR.Pinned", ""]
+     "Pinned fingerprints (tools/pin_fingerprints.py; committed): per property, the hash over the normalised ASTs of the parts of",
+     "the qrcode package in the property's static slice (tools/slicer.py: closure of the functions its model mirrors and of its",
+     "entry points, tools/modelled_functions.json, under 'can refer to', minus its cut parts), as they were when the model was",
+     "written and validated.  `Cxx_source_fingerprints` states that /repo's working tree still has exactly these: the theorems are",
+     "about a model of THIS source.  Which part changed is reported by ./check from corpus/fingerprints_baseline.json.", "-/",
+     "namespace QR.Pinned", ""]
 for m in re.finditer(r"def (fp_C\d+) : Nat := (0x[0-9a-f]+)", gen):
     L.append(f"def {m.group(1)} : Nat := {m.group(2)}")
 L += ["", "end QR.Pinned", ""]
 open(os.path.join(VERIF, "lean", "QR", "Proofs", "Pinned.lean"), "w").write("\n".join(L))
 shutil.copy(os.path.join(VERIF, "lean", "QR", "Gen", "fingerprints.json"), os.path.join(VERIF, "corpus", "fingerprints_baseline.json"))
+shutil.copy(os.path.join(VERIF, "lean", "QR", "Gen", "fingerprint_keys.json"), os.path.join(VERIF, "corpus", "fingerprint_keys_baseline.json"))
 ks = json.load(open(os.path.join(VERIF, "lean", "QR", "Gen", "fingerprint_keys.json")))
-print("pinned", len({k for v in ks.values() for k in v}), "functions over", len(ks), "properties")
+print("pinned", len({k for v in ks.values() for k in v}), "parts over", len(ks), "properties")
